@@ -18,7 +18,7 @@ var zooTypes = map[string][]zf{
 	"Query": {{"title", "", ""}, {"count", "", ""}, {"ratio", "", ""}, {"flag", "", ""}, {"size", "", ""},
 		{"keeper", "Keeper", "keeper"}, {"keepers", "Keeper", ""}, {"animals", "Animal", ""}, {"things", "Thing", ""},
 		{"grid", "Cell", ""}, {"echo", "", "echo"}, {"tags", "", ""}, {"nums", "", ""}, {"find", "Keeper", "find"}, {"boss", "Keeper", ""},
-		{"ghost", "", ""}, {"relay", "", "relay"}, {"pick", "Thing", "pick"}},
+		{"ghost", "", ""}, {"relay", "", "relay"}, {"pick", "Thing", "pick"}, {"join", "", "join"}},
 	"Keeper": {{"name", "", ""}, {"age", "", ""}, {"pets", "Animal", ""}, {"friend", "Keeper", ""}, {"cells", "Cell", ""},
 		{"motto", "", "motto"}, {"rank", "", ""}, {"dogs", "Dog", ""}, {"ghost", "", ""}, {"nick", "", "nick"}, {"code", "", "code"}},
 	"Dog":      {{"name", "", ""}, {"legs", "", ""}, {"barks", "", ""}, {"owner", "Keeper", ""}, {"code", "", ""}},
@@ -212,6 +212,17 @@ func (g *reqGen) argsFor(kind string) string {
 		} else {
 			parts = []string{"i: " + strconv.Itoa(g.t.Draw(12))}
 		}
+	case "join":
+		switch g.t.Draw(4) {
+		case 0:
+			parts = []string{"words: [\"a\", null, \"b\"]"}
+		case 1:
+			parts = []string{"words: null"}
+		case 2:
+			parts = []string{"words: []"}
+		default:
+			parts = []string{"words: [\"w" + strconv.Itoa(g.t.Draw(9)) + "\", \"x\"]"}
+		}
 	case "nick":
 		switch g.t.Draw(4) {
 		case 0:
@@ -271,6 +282,10 @@ func (g *reqGen) fieldsOf(typ string) []zf {
 			}
 		case "pick", "code":
 			if !g.o.Pick {
+				continue
+			}
+		case "join":
+			if !g.o.Nick {
 				continue
 			}
 		case "nick":
